@@ -29,9 +29,9 @@ from . import known, tlc
 from . import poolharness as ph
 
 JOBS = int(os.environ.get("VERIF_JOBS") or 0) or (os.cpu_count() or 4)
-INVARIANTS = ["TypeOK", "NoDuplicate", "SlotsRestored", "NoOrphanSocket", "BlockBound", "OnlyUrllib3Errors",
+INVARIANTS = ["TypeOK", "NoDuplicate", "SlotsRestored", "SlotsConserved", "NoOrphanSocket", "BlockBound", "OnlyUrllib3Errors",
               "InterruptsPropagate", "InterruptInFlight"]
-ACTIONS = ["StartReq", "GetConn", "Connect", "Send", "Recv", "Preload", "Ok", "Except", "Finally", "After",
+ACTIONS = ["StartReq", "PreFail", "GetConn", "Connect", "Send", "Recv", "Preload", "Ok", "Except", "Finally", "After",
            "DisposeResp", "PeerCut", "Finish"]
 
 MC_CFG = """SPECIFICATION Spec
@@ -43,6 +43,7 @@ CONSTANTS
   Disposals <- {disp}
   MaxHeld = {held}
   Cuts = {cuts}
+  BadArgs = {badargs}
   KnownDefects <- {defects}
   TreeTraits <- {traits}
   ShardK = {k}
@@ -65,14 +66,15 @@ CONSTANTS
   Disposals <- TrDisp
   MaxHeld = 0
   Cuts = FALSE
+  BadArgs = FALSE
   KnownDefects <- TrNone
   TreeTraits <- TrNone
 CHECK_DEADLOCK FALSE
 """
-ALL = dict(ns="{1, 2}", rets='{"F", "0", "1", "R2"}', routes='{"direct", "fwd"}', modes="{1, 2, 3, 4}")
+ALL = dict(ns="{1, 2}", rets='{"F", "0", "1", "R2"}', routes='{"direct", "fwd"}', modes="{1, 2, 3, 4}", badargs="FALSE")
 
 
-TRAITS = {"v": None}
+TRAITS = {"v": None, "put_without_checkout": None}
 
 
 def detect_traits():
@@ -84,6 +86,11 @@ def detect_traits():
         r = ph.run_scenario({"cfg": dict(n=1, block=False, retries="F", preload=True, release=True, route="fwd"),
                              "steps": [{"op": "req", "id": 1, "atts": ["r_eof"]}]})
         d2 = r["obs"]["reqs"][0]["out"] == "ProxyError"
+        r = ph.run_scenario({"cfg": dict(n=1, block=False, retries="F", preload=True, release=True, route="direct"),
+                             "steps": [{"op": "req", "id": 1, "how": "badarg", "atts": []}]})
+        evs, i0 = r["events"], [i for i, e in enumerate(r["events"]) if e["ev"] == "ReqStart"][0]
+        i1 = [i for i, e in enumerate(evs) if e["ev"] == "ReqEnd"][0]
+        TRAITS["put_without_checkout"] = any(e["ev"] == "QPut" for e in evs[i0:i1])
         TRAITS["v"] = {(False, False): "MCTraitsNone", (True, False): "MCTraitsOldRelease", (False, True): "MCTraitsD2",
                        (True, True): "MCTraitsOldReleaseD2"}[(old_release, d2)]
     return TRAITS["v"]
@@ -98,26 +105,31 @@ def plan_cfg(plan, k=1, s=0, emit=False, invs=True, defects="MCNoDefects"):
 
 # plans: (name, constants).  The state space of each plan is partitioned exactly by the shards.
 QUICK_PLANS = [
-    ("1req", dict(maxreqs=1, first="MCAll", later="MCMicro", disp="MCDispAll", held=0, cuts="FALSE", ns="{1}")),
-    ("2req", dict(maxreqs=2, first="MCTiny", later="MCMicro", disp="MCDispMicro", held=1, cuts="TRUE",
-                  rets='{"F", "1"}', ns="{1}", routes='{"direct"}')),
+    ("1req", dict(maxreqs=1, first="MCAll", later="MCMicroN", disp="MCDispAll", held=0, cuts="FALSE", ns="{1}",
+                  badargs="TRUE")),
+    ("2req", dict(maxreqs=2, first="MCTinyN", later="MCMicro", disp="MCDispMicro", held=1, cuts="TRUE",
+                  rets='{"F", "1"}', ns="{1}", routes='{"direct"}', badargs="TRUE")),
 ]
 THOROUGH_PLANS = [
-    ("1req-full", dict(maxreqs=1, first="MCAll", later="MCAll", disp="MCDispAll", held=0, cuts="FALSE")),
-    ("2req", dict(maxreqs=2, first="MCTiny", later="MCTiny", disp="MCDispSmall", held=1, cuts="TRUE",
-                  rets='{"F", "1"}', ns="{1}", routes='{"direct"}')),
+    ("1req-full", dict(maxreqs=1, first="MCAll", later="MCAll", disp="MCDispAll", held=0, cuts="FALSE", badargs="TRUE")),
+    ("2req", dict(maxreqs=2, first="MCTinyN", later="MCTinyN", disp="MCDispSmall", held=1, cuts="TRUE",
+                  rets='{"F", "1"}', ns="{1}", routes='{"direct"}', badargs="TRUE")),
     ("2req-wide", dict(maxreqs=2, first="MCTiny", later="MCTiny", disp="MCDispSmall", held=1, cuts="TRUE",
                        rets='{"0", "R2"}', ns="{2}")),
     ("3req", dict(maxreqs=3, first="MCMicro", later="MCMicro", disp="MCDispMicro", held=1, cuts="TRUE",
-                  rets='{"F", "1"}', ns="{1}", routes='{"direct"}', modes="{2, 3, 4}")),
+                  rets='{"F", "1"}', ns="{1}", routes='{"direct"}', modes="{2, 4}", badargs="TRUE")),
 ]
 # named deviations: (constant, clause TLC must report, constants of a small run that reaches it)
 SMALL = dict(maxreqs=2, first="MCSmall", later="MCTiny", disp="MCDispAll", held=1, cuts="FALSE", ns="{1}",
              rets='{"F", "1"}', routes='{"direct"}')
+SMALLB = dict(maxreqs=2, first="MCTinyN", later="MCMicroN", disp="MCDispMicro", held=1, cuts="FALSE", ns="{1}",
+              rets='{"F", "1"}', routes='{"direct"}', badargs="TRUE")
 DEVIATIONS = [
-    ("MCF1", "SlotsRestored", SMALL),
-    ("MCMutCloseNoRelease", "SlotsRestored", SMALL),
+    ("MCF1", "SlotsRestored", SMALL),                      # finding C01-F1 (repaired by f312ad5)
+    ("MCReleaseOnlyIfConn", "SlotsRestored", SMALLB),      # release only when a connection object exists
+    ("MCPutWithoutCheckout", "SlotsConserved", SMALLB),    # finding C01-F2: placeholder given back without a checkout
     ("MCMutFinallyNoRelease", "SlotsRestored", SMALL),
+    ("MCMutCloseNoRelease", "SlotsRestored", SMALL),
     ("MCMutExcept", "OnlyUrllib3Errors", SMALL),
     ("MCMutFullNoClose", "NoOrphanSocket", SMALL),
     ("MCMutReleaseKeeps", "NoDuplicate", dict(SMALL, ns="{2}", first="MCTiny")),
@@ -155,6 +167,22 @@ def facts_of(sc, events, clause):
             elif ev == "QPut":
                 held[cur] -= 1
     leaked = sorted(i for i, n in held.items() if n > 0)
+    # a request window that gives something back without having checked anything out
+    phantom, gets, puts, inreq = [], 0, 0, None
+    for e in events:
+        if e["ev"] == "ReqStart":
+            inreq, gets, puts = e["req"], 0, 0
+        elif e["ev"] == "ReqEnd":
+            if puts and not gets:
+                phantom.append(inreq)
+            inreq = None
+        elif inreq is not None and e["ev"] == "QGet":
+            gets += 1
+        elif inreq is not None and e["ev"] == "QPut":
+            puts += 1
+    if inreq is not None and puts and not gets:
+        phantom.append(inreq)
+    badreqs = {st["id"] for st in sc["steps"] if st["op"] == "req" and st.get("how") == "badarg"}
     disp = {}
     for st in sc["steps"]:
         if st["op"] == "disp":
@@ -162,7 +190,9 @@ def facts_of(sc, events, clause):
     cls = "other"
     if leaked and cfg["preload"] and not cfg["release"] and all(disp.get(i) == ["stream"] for i in leaked):
         cls = "preloaded-unreleased-response-streamed"
-    return {"clause": clause, "class": cls, "leaked": leaked}
+    if phantom and set(phantom) <= badreqs:
+        cls = "request-failed-before-checkout"
+    return {"clause": clause, "class": cls, "leaked": leaked, "phantom": phantom}
 
 
 def is_nontrivial(sc):
@@ -185,6 +215,7 @@ class Judge:
     """Collects (scenario, trace) pairs, has TLC judge them in batches, classifies the verdicts."""
 
     def __init__(self, batch=4000):
+        detect_traits()
         self.batch = batch
         self.pending = []
         self.n = 0
@@ -231,8 +262,9 @@ class Judge:
             elif clause != "ok":
                 # kept as one string each (see add): thousands of known-finding traces must not slow gc.collect()
                 prefix = r["events"][:pos] if len(self.bad) < 200 else None
-                self.bad.append(json.dumps([clause, pos, sc, facts_of(sc, r["events"], clause), prefix]))
-            elif withexp and any(st.get("dev") for st in sc["steps"]):
+                self.bad.append(json.dumps([clause, pos, sc, facts_of(sc, r["events"][:pos], clause), prefix]))
+            elif withexp and (any(st.get("dev") for st in sc["steps"]) or (
+                    TRAITS["put_without_checkout"] and any(st.get("how") == "badarg" for st in sc["steps"]))):
                 # the history passes a point where a recorded deviation (C01-F1) changes what follows: the Model's
                 # expectations describe the repaired design there; only the Rules verdict applies
                 self.skipped_dev += 1
@@ -305,6 +337,7 @@ def _emit_shard(args):
 
 GOOD_TRACE = [  # recorded once from the unchanged tree; columns: ev, req, item, sock, res, cls, how, q, qs, open, n
     ["QPut", 0, 0, 0, "ok", "", "", [], [], [], 0],
+    ["Created", 0, 0, 0, "", "", "", [], [], [], 0],
     ["ReqStart", 1, 0, 0, "", "", "", [], [], [], 0],
     ["QGet", 0, 0, 0, "ok", "", "", [], [], [], 0],
     ["Dial", 0, 0, 1, "ok", "", "", [], [], [], 0],
@@ -370,16 +403,22 @@ def monitor_selftest():
             if e["ev"] == "Quiesce":
                 e["open"] = sorted(set(e["open"]) | {2})
 
-    def put_twice(evs):
-        i = [i for i, e in enumerate(evs) if e["ev"] == "QPut" and e["item"] == 1][0]
-        evs.insert(i, dict(evs[i]))
+    def put_twice(evs):      # judged with maxsize 2: two checkouts, then the same connection is given back twice
+        ev = lambda name, **kw: dict(dict(zip(keys, ["", 0, 0, 0, "", "", "", [], [], [], 0])), ev=name, **kw)
+        evs[:] = [ev("QPut", res="ok"), ev("QPut", res="ok"), ev("Created"), ev("ReqStart", req=1),
+                  ev("QGet", res="ok"), ev("QGet", res="ok"), ev("QPut", item=1, res="ok"), ev("QPut", item=1, res="ok")]
+
+    def phantom_put(evs):
+        i = [i for i, e in enumerate(evs) if e["ev"] == "ReqEnd"][0]
+        evs.insert(i + 1, dict(evs[0], res="full"))      # a placeholder given back although nothing is checked out
 
     def no_probe(evs):
         evs[:] = [e for e in evs if e["ev"] != "Probe"]
 
     want = [("ok", 1, lambda evs: None), ("SlotsRestored", 1, drop_last_put), ("OnlyUrllib3Errors", 1, raw_error),
             ("InterruptsPropagate", 1, swallowed_interrupt), ("BlockBound", 1, never_closed),
-            ("NoOrphanSocket", 1, peer_sees_open), ("NoDuplicate", 2, put_twice), ("Incomplete", 1, no_probe)]
+            ("NoOrphanSocket", 1, peer_sees_open), ("NoDuplicate", 2, put_twice), ("SlotsConserved", 1, phantom_put),
+            ("Incomplete", 1, no_probe)]
     batch = [{"cfg": {"n": n, "block": True}, "events": mutate(f)} for _, n, f in want]
     _, verdicts = validate_traces(json.dumps(batch), len(batch))
     got = {tid: clause for tid, _, clause in verdicts}
@@ -398,8 +437,11 @@ def random_scenario(rng, maxreqs=6):
     steps, live = [], []
     nreq = rng.randint(1, maxreqs)
     for i in range(1, nreq + 1):
+        if rng.random() < 0.08:
+            steps.append({"op": "req", "id": i, "how": "badarg", "atts": []})
+            continue
         atts = [rng.choice(syms) if rng.random() < 0.7 else "ok_ka" for _ in range(4)]
-        steps.append({"op": "req", "id": i, "atts": atts})
+        steps.append({"op": "req", "id": i, "how": "", "atts": atts})
         live.append(i)
         while live and (rng.random() < 0.6 or len(live) > 4):
             x = live.pop(rng.randrange(len(live)))
@@ -471,7 +513,8 @@ def _absorb(rep, findings, outs, counters):
                 rep.known.append((f["id"], f["what"]))
                 counters["known"] += 1
                 continue
-            what = f"{clause} fails at event {pos} of the recorded trace (leaked leases of requests {facts['leaked']})"
+            what = (f"{clause} fails at event {pos} of the recorded trace (leaked leases of requests {facts['leaked']}, "
+                    f"give-back without checkout in requests {facts['phantom']})")
             rep.violation(clause, what, {"kind": "scenario", "scenario": sc, "trace_prefix": prefix})
 
 
@@ -481,6 +524,7 @@ def run(rep):
     plans = QUICK_PLANS if quick else THOROUGH_PLANS
     counters = {"events": 0, "clauses": {}, "known": 0}
     rep.extra["tree_traits"] = detect_traits()
+    rep.extra["tree_puts_placeholder_without_checkout"] = TRAITS["put_without_checkout"]
     rep.rule = ("a history is non-trivial when it contains a fault, retry, redirect, non-2xx reply, a server cut or a "
                 "disposal other than read-all (i.e. anything but single clean 200 requests read to the end); "
                 "distinct_nontrivial counts distinct (configuration, steps) keys; every history is executed on the real "
@@ -491,7 +535,7 @@ def run(rep):
                        "TLC 1.8, CPython http.client and vh/net.py are trusted"]
     k = max(1, JOBS)
     covplan = dict(plans[1][1])
-    devs = DEVIATIONS[:3] if quick else DEVIATIONS
+    devs = DEVIATIONS[:4] if quick else DEVIATIONS
     nrand, chunks = (1600, 8) if quick else (60000, 48)      # chunking independent of VERIF_JOBS: same seed,
     per = nrand // chunks                                       # same histories on any machine
     # One task list, heaviest first, so that the JVMs of stage 1 overlap with emission / replay / validation:
